@@ -84,15 +84,16 @@ Proof. vm_compute. reflexivity. Qed.
    (Codec/JournalProofs.v: truncation, truncation_complete, reader_factor, jwrite_layout and the block-parser
    lemmas), for every checksum function crc and every constant record with jparams_ok:                      *)
 
-(* Cut at any byte offset n, nothing behind the cut — unconditional.  Recovery keeps exactly firstn m recs for
-   an m with: every record that was written (and flushed) within the first n bytes is kept — in particular
-   every synced record, k <= m for a sync point after k records — and m <= length recs: one of the images
-   the record-level model quantifies over. *)
+(* Cut at any byte offset n, nothing behind the cut — unconditional.  Recovery keeps exactly firstn m recs where
+   m is the number of records whose stream lies wholly within the first n bytes: the m-th record does, and
+   every k whose stream does is <= m — in particular every synced record is kept (k <= m for a sync point
+   after k records) — and m <= length recs: one of the images the record-level model quantifies over. *)
 Theorem C04_byte_cut_is_record_image : forall crc p, jparams_ok p ->
   forall (A : Type) (enc : A -> bytes) (dec : bytes -> option A) ck fl recs n,
   dec_ok A enc dec recs ->
   exists m, (m <= length recs)%nat /\
     recover_bytes crc p A dec ck (crash_bytes crc p A enc fl recs n []) = firstn m recs /\
+    (synced_len crc p A enc fl recs m <= n)%nat /\
     forall k, (synced_len crc p A enc fl recs k <= n)%nat -> (Nat.min k (length recs) <= m)%nat.
 Proof. exact byte_cut_is_record_image. Qed.
 Print Assumptions C04_byte_cut_is_record_image.
@@ -111,6 +112,18 @@ Theorem C04_byte_image_is_record_image : forall crc p, jparams_ok p ->
     forall k, (synced_len crc p A enc fl recs k <= n)%nat -> (Nat.min k (length recs) <= m)%nat.
 Proof. exact byte_image_is_record_image. Qed.
 Print Assumptions C04_byte_image_is_record_image.
+
+(* Where a Sync can happen: when the writer model has written k records and flushed after the k-th (fl[k-1];
+   writeJournal / flushManifest call Sync right after Flush), the bytes that have reached the file are exactly
+   the stream of the first k records — the synced_len used above — and the remaining records are written from
+   that state on. *)
+Theorem C04_sync_point_bytes : forall crc p, jparams_ok p -> forall fl (rs : list bytes) k,
+  (1 <= k <= length rs)%nat -> nth (k - 1) fl false = true ->
+  exists s, wRecords crc p (w_init p) fl (firstn k rs) = WOk s /\
+            w_out s = jwrite crc p fl (firstn k rs) /\
+            wRecords crc p (w_init p) fl rs = wRecords crc p s (skipn k fl) (skipn k rs).
+Proof. exact sync_point_bytes. Qed.
+Print Assumptions C04_sync_point_bytes.
 
 (* the hypothesis is a theorem for pure cuts *)
 Theorem C04_no_forgery_tail_cut : forall crc p, jparams_ok p -> forall ck fl rs n,
